@@ -33,11 +33,12 @@ SPECS = {
     "IntegratorAntiWindup": (dict(u=("var",), T=("param",), K=("param",), y0=("const", 0.0), **LIM), K / (s * T), "y"),
     "Lag": (dict(u=("var",), T=("param",), K=("param",), D=("param",)), K / (D + s * T), "y"),
     "LagAntiWindup": (dict(u=("var",), T=("param",), K=("param",), D=("param",), **LIM), K / (D + s * T), "y"),
-    "LagFreeze": (dict(u=("var",), T=("param",), K=("param",), freeze=("var",)), K / (1 + s * T), "y"),
-    "LagAWFreeze": (dict(u=("var",), T=("param",), K=("param",), freeze=("var",), **LIM), K / (1 + s * T), "y"),
-    "LagRate": (dict(u=("var",), T=("param",), K=("param",), rate_lower=("param",), rate_upper=("param",)), K / (1 + s * T), "y"),
-    "LagAntiWindupRate": (dict(u=("var",), T=("param",), K=("param",), rate_lower=("param",), rate_upper=("param",), **LIM),
-                          K / (1 + s * T), "y"),
+    # the lag variants accept `D` like Lag (their class diagrams show K/(D + sT), or they inherit Lag's parameter list): the spec passes it
+    "LagFreeze": (dict(u=("var",), T=("param",), K=("param",), freeze=("var",), D=("param",)), K / (D + s * T), "y"),
+    "LagAWFreeze": (dict(u=("var",), T=("param",), K=("param",), freeze=("var",), D=("param",), **LIM), K / (D + s * T), "y"),
+    "LagRate": (dict(u=("var",), T=("param",), K=("param",), rate_lower=("param",), rate_upper=("param",), D=("param",)), K / (D + s * T), "y"),
+    "LagAntiWindupRate": (dict(u=("var",), T=("param",), K=("param",), rate_lower=("param",), rate_upper=("param",), D=("param",), **LIM),
+                          K / (D + s * T), "y"),
     "Washout": (dict(u=("var",), T=("param",), K=("param",)), s * K / (1 + s * T), "y"),
     "WashoutOrLag": (dict(u=("var",), T=("param",), K=("param",)), s * K / (1 + s * T), "y"),
     "LeadLag": (dict(u=("var",), T1=("param",), T2=("param",), K=("param",)), K * (1 + s * T1) / (1 + s * T2), "y"),
@@ -329,6 +330,15 @@ def rule_param_use(ctx, repo):
             if c.path != BLOCK or "__init__" not in c.methods or c.name in ("Block", "Piecewise", "PIControllerNumeric"):
                 continue
             init = c.methods["__init__"]
+            # a parameter the constructor accepts is read by it (stored, or handed to the base constructor): a parameter that is
+            # accepted and silently dropped (`LagFreeze(..., D=2)` used to pass `D=1` on) changes nothing where the caller expects it to
+            sig = [a_.arg for a_ in init.args.args[1:] + init.args.kwonlyargs]
+            read = {x.id for x in ast.walk(init) if isinstance(x, ast.Name) and isinstance(x.ctx, ast.Load)}
+            for p_ in sig:
+                if p_ not in read:
+                    ctx.violation("C18.param-use", "%s.__init__/%s/ignored" % (c.name, p_),
+                                  "constructor parameter `%s` of %s is accepted and never read: the caller's value is silently dropped" % (p_, c.name),
+                                  repo.W(c, init))
             stored = {}
             for st_ in walk_noscope(init):
                 if isinstance(st_, ast.Assign) and len(st_.targets) == 1:
